@@ -53,7 +53,9 @@ func c17Zoo() []zooEntry {
 		{"map[*int]struct", map[*int]c17Elem{new(int): e(1, "a"), new(int): e(1, "b"), nil: e(2, "c")}},
 		{"map[string]interface{}", map[string]interface{}{"x": e(1, "a"), "y": nil, "z": map[string]interface{}{"A": 1, "s": "q", "L": []int{1}}}},
 		{"map[string]map", map[string]map[string]int{"x": {"A": 1}, "y": {"A": 2}, "z": nil}},
-		{"[]int", []int{1, 2, 1}}, {"[]string", []string{"a", "b"}},
+		{"[]int", []int{1, 2, 1}}, {"[]string", []string{"a", "b"}}, {"[]int-empty", []int{}}, {"[]string-nil", []string(nil)},
+		{"[][]string", [][]string{{"a", "b"}, {"c"}, {}, {"a b"}}}, {"[2][2]int", [2][2]int{{1, 2}, {2, 1}}}, {"map[string][]int", map[string][]int{"x": {1, 2}, "y": {2}, "z": nil}}, {"[]*[]string", []*[]string{{"a"}, nil}},
+		{"whitespace-strings", []c17Elem{{A: 1, S: "a b"}, {A: 2, S: "a  b"}, {A: 3, S: "a\tb"}, {A: 4, S: "a b "}}},
 		{"[2]int", [2]int{1, 2}}, {"[2]map", [2]map[string]interface{}{{"A": 1, "s": "a"}, {"A": 2}}}, {"[2]*struct", [2]*c17Elem{{A: 1, S: "a"}, {A: 3}}}, {"[1]interface{}", [1]interface{}{c17Elem{A: 1, S: "a"}}},
 		{"aliased-pointers", c17Aliased()}, {"aliased-pointers-map", c17AliasedMap()},
 		{"empty-with-capacity", make([]c17Elem, 0, 4)}, {"empty-named-slice", c17Slice{}}, {"nil-named-map", c17Map(nil)},
@@ -80,7 +82,8 @@ func c17AliasedMap() map[string]interface{} {
 }
 
 var c17ZooExprs = []string{`A == 1`, `A != 1`, `A == 2 or s == "a"`, `not (A == 1)`, `s == "a"`, `s != ""`, `L is empty`, `L is not empty`, `1 in L`, `A == 1 and L is empty`, `A == x`, `s matches "^[ab]$"`,
-	`any L as v { v == 1 }`, `all L as v { v == 1 }`, `hidden == 7`, `zz == 1`, `A in L`, `s is empty or A == 3`}
+	`any L as v { v == 1 }`, `all L as v { v == 1 }`, `hidden == 7`, `zz == 1`, `A in L`, `s is empty or A == 3`,
+	`s == "a b"`, `s == "a  b"`, "s == `a\tb`", `s == "a b "`, `s  ==  "a b"`, `"/0" == a`, `"/1" == 2`, `"/0" == 1 or "/0" == 2`, `"/0" is empty`}
 
 var c17NonContainers = []zooEntry{{"nil", nil}, {"int", 5}, {"string", "abc"}, {"bool", true}, {"struct", c17Elem{A: 1}}, {"ptr-to-slice", &[]c17Elem{{A: 1}}}, {"ptr-to-map", &map[string]c17Elem{"x": {A: 1}}},
 	{"ptr-to-struct", &c17Elem{A: 1}}, {"func", func() {}}, {"chan", make(chan int)}, {"float", 1.5}, {"nil-ptr-slice", (*[]int)(nil)}, {"typed-nil-iface", interface{}((*c17Elem)(nil))}}
@@ -387,7 +390,7 @@ func c17Run(c *mon.Ctx, idx int) {
 func init() {
 	mon.Register(&mon.Prop{
 		ID: "C17", Level: "exploration",
-		Rule:        "containers: a zoo of 35 Go containers (slices, NAMED slice types, slices of pointers with nil, arrays incl. [0]T, []map, []interface{} with nil / mixed elements, nil and empty slices and maps, maps keyed by string, named string, int, bool, float64, interface{} (keys with equal printed forms such as 1, \"1\", int64(1), true, \"true\"), struct, array and pointer keys) x 18 expressions, plus collections found in seeded typed documents with element-directed random expressions (some elements erroring). oracle (model-based): expected = elements / entries for which a separately created evaluator's Evaluate is true, in order; result reflect.Type = the slice type (named kept) / []Elem for arrays / the map type; error (with nil result) iff some element errors; deep snapshot of the input (incl. unexported fields, spare capacity) unchanged; overwriting every slot of the result leaves the input unchanged; idempotence; E / not(E) partition; the nil filter returns the very same value (pointer identity for slices/maps); nil, scalars, structs and pointers to containers are errors, not panics. non-trivial = a selection was compared; distinct by (container, expression, input dump)",
+		Rule:        "containers: a zoo of 43 Go containers (incl. containers of containers and empty primitive slices) (slices, NAMED slice types, slices of pointers with nil, arrays incl. [0]T, []map, []interface{} with nil / mixed elements, nil and empty slices and maps, maps keyed by string, named string, int, bool, float64, interface{} (keys with equal printed forms such as 1, \"1\", int64(1), true, \"true\"), struct, array and pointer keys) x 27 expressions (some differing only in the whitespace inside a literal), plus collections found in seeded typed documents with element-directed random expressions (some elements erroring). oracle (model-based): expected = elements / entries for which a separately created evaluator's Evaluate is true, in order; result reflect.Type = the slice type (named kept) / []Elem for arrays / the map type; error (with nil result) iff some element errors; deep snapshot of the input (incl. unexported fields, spare capacity) unchanged; overwriting every slot of the result leaves the input unchanged; idempotence; E / not(E) partition; the nil filter returns the very same value (pointer identity for slices/maps); nil, scalars, structs and pointers to containers are errors, not panics. non-trivial = a selection was compared; distinct by (container, expression, input dump)",
 		Assumptions: []string{"Evaluate on an element is the specification of the filter (C01 decides Evaluate itself)"},
 		NumCases:    func(tier string) int { return len(c17Zoo()) + len(c17NonContainers) + tierN(tier, 6000, 300000) },
 		Run:         c17Run,
